@@ -102,7 +102,11 @@ fn seq_oracle() -> SeqOracle {
                     // no weight requested, no value: a key whose charged weight is what the configured weight function
                     // gives for its TTL state keeps that relation when the request adds or removes the TTL (the weight
                     // function charges `ttl_extra` for the expiry-index entry of a key with a TTL)
-                    if w.is_none() && !has_value {
+                    // (only for weight functions that charge the library's own 24 for a TTL, like the default one: the
+                    // adjustment the library applies is that constant, whatever the configured function says - the
+                    // design question recorded with D8)
+                    let default_like = matches!(run.setup.weight_fn, WeightFn::Const { ttl_extra: 24, .. });
+                    if w.is_none() && !has_value && default_like {
                         let (had, has) = (e.3.is_some(), n.3.is_some());
                         if had != has && b.weight_of_id(e.2) == Some(weight_fn_of(&run.setup, k, had)) {
                             let want = weight_fn_of(&run.setup, k, has);
@@ -169,15 +173,19 @@ fn seq_oracle() -> SeqOracle {
     })
 }
 
-fn seq_spec(ctx: &Ctx, shards: usize) -> SeqSpec {
+fn seq_spec(ctx: &Ctx, shards: usize, ttl_extra: i64) -> SeqSpec {
     let mut alphabet = vec![Op::Put { k: 1, w: Some(30), ttl_ms: None }, Op::Put { k: 1, w: Some(30), ttl_ms: Some(2000) }, Op::Put { k: 1, w: None, ttl_ms: Some(2000) }, Op::Delete { k: 1 }, Op::Advance { ms: 3000 }, Op::Advance { ms: 1000 }, Op::TickWait];
     alphabet.extend(shapes(1));
     // a TTL that is *shorter* than the one the key has (the other shapes extend it), with and without a value
     alphabet.push(Op::Upsert { k: 1, value: false, w: None, ttl_ms: Some(500), remove_ttl: false });
     alphabet.push(Op::Upsert { k: 1, value: true, w: None, ttl_ms: Some(700), remove_ttl: false });
+    // a time-to-live of zero, on absent keys (acts as put_with_ttl(.., 0): differential against the twin) and on held ones
+    alphabet.push(Op::Upsert { k: 1, value: true, w: None, ttl_ms: Some(0), remove_ttl: false });
     SeqSpec {
-        name: format!("seq/upsert-shapes-x-key-states/shards{}", shards),
-        setup: Setup { weight: 10_000, shards, buffer: 64, weight_fn: WeightFn::Const { c: 30, ttl_extra: 24 }, ..Setup::default() },
+        // ttl_extra 24 mirrors the default weight calculation (a key with a TTL is charged for its expiry-index entry);
+        // ttl_extra 0 is a custom weight function for which a TTL makes no difference
+        name: format!("seq/upsert-shapes-x-key-states/shards{}{}", shards, if ttl_extra == 24 { String::new() } else { format!("/weight-fn-ignores-ttl") }),
+        setup: Setup { weight: 10_000, shards, buffer: 64, weight_fn: WeightFn::Const { c: 30, ttl_extra }, ..Setup::default() },
         world: Default::default(),
         prefix: vec![],
         alphabet,
@@ -348,9 +356,9 @@ pub fn def(ctx: &Ctx) -> PropertyDef {
     let quick = ctx.quick();
     let workers = ctx.workers;
     let mut scenarios: Vec<Scenario> = Vec::new();
-    for shards in [2usize, 4] {
-        let name = seq_spec(ctx, shards).name;
-        scenarios.push(seq_scenario(move |c| seq_spec(c, shards), &name));
+    for (shards, ttl_extra) in [(2usize, 24i64), (4, 24), (2, 0)] {
+        let name = seq_spec(ctx, shards, ttl_extra).name;
+        scenarios.push(seq_scenario(move |c| seq_spec(c, shards, ttl_extra), &name));
     }
     for p in ilv_programs() {
         scenarios.push({
